@@ -1,5 +1,6 @@
 SPECIFICATION GenSpec
 CONSTANTS
+  ReAddOn <- ReAddEnv
   Lng <- LngDef
   NamePool <- NamePoolDef
   IdPool <- IdPoolDef
